@@ -91,24 +91,25 @@ claim("C07", "must-pass-through rule for the exhaustiveness check, shape of the 
 
 # clauses added while testing against sub-agent changes (rounds 1 and 2); kept separate so the first texts stay readable
 ADDENDA = {
-    "C01": "Also: a recursive function's parameter is hoisted as static only when every self-call passes that very parameter at its own position; under `expect`, only the tail position of a list pattern is dropped because a tail is present; recorded Vec positions are removed from the highest down. The optimiser drops a cast pair only when the inner builtin cannot fail (4 known findings) and counts a use inside a delayed branch as delayed unless the sibling branch is `error`; the decision tree picks list tail cases by longest fitting prefix, distributes tail rows over inclusive ranges, and calls hoisted clause bodies with arguments in parameter order; module constants are cached under a structured key.",
+    "C01": "Also: a recursive function's parameter is hoisted as static only when every self-call passes that very parameter at its own position; under `expect`, only the tail position of a list pattern is dropped because a tail is present; recorded Vec positions are removed from the highest down. The optimiser drops a cast pair only when the inner builtin cannot fail (4 known findings) and counts a use inside a delayed branch as delayed unless the sibling branch is `error`; the decision tree picks list tail cases by longest fitting prefix, distributes tail rows over inclusive ranges, and calls hoisted clause bodies with arguments in parameter order; module constants are cached under a structured key. AirTree::mut_held_types exposes every type a node carries; the hoisted name of a function is an injective function of (module, name) (6 known findings); constructor indices after constrData are computed, never literal.",
     "C02": "Also: no reader of a Data integer handles the 64-bit form only and aborts on the rest; deferred Vec removals at recorded positions run from the highest position down (reversed loop or positions recorded under a reversed enumeration, receiver type confirmed on MIR). cast_data_reducer cancels outer(inner(x)) only for a total inner builtin (failure exits read off the evaluator; 4 known findings); carry_args_to_branch scans the inside of a delay as certain to run only under a test that the sibling branch is `error`; a curried definition refers to its prefix's name only when the whole prefix is constant. No foldable builtin introduces a constant the flat encoder refuses (BLS elements are compressed before folding, never after); the `other branch is error` shortcut of the occurrence analysis applies to two-branch selectors only.",
     "C03": "Also: value_as_term enters read-back with a binder depth equal to the Lambda binders it builds itself.",
     "C04": "Also (MIR, resolved callees): the plain CBOR integer form is chosen by a fallible conversion from >=128 bits into pallas' Int and the negative bignum payload is -1-n computed on big integers in both directions; serialiseData's re-encoder routes each Data constructor to its own re-encoder, writes lists indefinite unless empty and maps definite, and hands byte strings / integers to pallas' own encoders; the G1 and G2 arms of each BLS builtin unwrap the same argument kinds and raise the same errors, and multiScalarMul bounds every scalar of the whole list.",
     "C06": "Also: close_scope assigns back exactly what open_new_scope saved (Hydrator and Environment); every lowering of a call in CodeGenerator::build wraps a non-Data argument for a Data parameter in cast_to_data (sibling agreement of 4 sites).",
-    "C07": "Also: every find-by-case on the decision tree's case matrices / relevant columns that updates on a hit creates the entry on a miss, seeded from the default rows (6 sibling sites); equality on exhaustive::Literal / Pattern is derived or free of lossy conversions. At run time: the tail case for a list length is chosen by longest fitting prefix (never by table position), tail rows are distributed over inclusive ranges, hoisted clause bodies get their arguments in parameter order, constructor indices are derived only where @tag is read; in the checker: the local constructor table answers only for local types and clause alternatives keep their source order.",
+    "C07": "Also: every find-by-case on the decision tree's case matrices / relevant columns that updates on a hit creates the entry on a miss, seeded from the default rows (6 sibling sites); equality on exhaustive::Literal / Pattern is derived or free of lossy conversions. At run time: the tail case for a list length is chosen by longest fitting prefix (never by table position), tail rows are distributed over inclusive ranges, hoisted clause bodies get their arguments in parameter order, constructor indices are derived only where @tag is read; in the checker: the local constructor table answers only for local types and clause alternatives keep their source order. A back-passed `let` stays a `let`; missing record patterns are printed with labels in field order; a new case matrix starts from the default rows unconditionally.",
     "C09": "Also: the module-constant cache is keyed by a structured (module, name) key built field by field, never by a flattened string.",
     "C10": "Also: mkCons admits an element only when its whole type equals the list's element type (derived equality on Type), the invariant later arms discharge `unreachable!` on; no partial reader of Data integers aborts on the bignum forms. builtin currying emits closed definitions (discharges the optimiser's final try_from(..).unwrap()). The constant folder leaves no constant the flat encoder refuses (discharges the serialiser's unwrap on compiler output).",
     "C11": "Also: every InternKey is built from both the text and the previous unique of its inputs, unconditionally, and compared / hashed by derived impls.",
-    "C12": "Also: a schema's definition key follows every type-variable binding its content follows (sibling conditions of Reference::from_type and Annotated::do_from_type); constant folding to Data decides map-vs-list from the list's element type. constructor positions are turned into indices only in functions that read @tag.",
+    "C12": "Also: a schema's definition key follows every type-variable binding its content follows (sibling conditions of Reference::from_type and Annotated::do_from_type); constant folding to Data decides map-vs-list from the list's element type. constructor positions are turned into indices only in functions that read @tag. The @tag lookup is the same chained lookup at the schema generator, the code generator and the expect decoder, and @list does not depend on the record sugar; no literal constructor index after constrData; nested type parameters are bound in a copy of the caller's bindings; the decoder skips a traversal only when every component is Data; each handler's definitions start empty; orphan-pair pruning records every dependent.",
     "C13": "Also: tuple-index suffixes are printed with the function the lexer validates them with; the formatter omits a validator's `else` only when it is exactly what the parser synthesises; element-dropping iterator adaptors in formatter methods are enumerated and reviewed. Capture holes are recognised by the prefix of their generated name; call / field access / tuple index parenthesise an operator expression they apply to; the `expect e` shorthand excludes back-passing and a pipe elides only an unlabelled hole; comments popped before an early return are printed; blank lines count as newlines for statement starts; every kind of argument name prints its label; `if x is T` is sugar only for `if x is x: T`.",
     "C16": "Also: the seeded run, the shrinker's replays and the final report evaluate the property through one method under one budget (ExBudget::max()); a candidate replaces the counterexample only under `candidate <=/< current` comparisons on length or sequence; recorded and replayed choices use inverse byte orders (one reversal on each side, cursor = number of choices); the iteration counter is decremented once per executed run, unconditionally.",
     "C08": "Also: a branch shared by several Plutus versions names no single version in its body.",
     "C18": "Also (shared with C08): a branch shared by several Plutus versions names no single version in its body, so applying a parameter cannot re-label a V1 program as V2.",
-    "C14": "Also: The presence of a traced continuation (`otherwise.is_some()`) is passed as a value only to the reviewed naming function; every `otherwise == Term::Error.delay()` branch point chooses unknown_data_to_type vs softcast_data_to_type_otherwise; infer_trace infers every sub-expression whatever the level.",
+    "C14": "Also: The presence of a traced continuation (`otherwise.is_some()`) is passed as a value only to the reviewed naming function; every `otherwise == Term::Error.delay()` branch point chooses unknown_data_to_type vs softcast_data_to_type_otherwise; infer_trace infers every sub-expression whatever the level. The branch point of `assignment` binds through soft_cast_assignment when traced and cast_from_data otherwise, nothing else.",
     "C17": "Also: No generator state is carried from one test's program to the next (C09's reset-completeness and finalize rules are part of the verdict), so the Rc-free constant cache is the only cross-program channel.",
-    "C19": "Also: A version-aware failed verdict (V3: non-unit result) is an Err; witness datums are keyed by their original hash; every failed script / datum lookup propagates for every language; no comparator compares a key with itself.",
+    "C19": "Also: A version-aware failed verdict (V3: non-unit result) is an Err; witness datums are keyed by their original hash; every failed script / datum lookup propagates for every language; no comparator compares a key with itself. Every evaluation entry point reports cost against the budget its machine was created with; both arms of sort_tx_out_value sort the value.",
     "C20": "Also: The loader's `to_cbor().unwrap()` is discharged by re-running C08's decoder/encoder agreement (whatever the flat decoder builds, the encoder accepts).",
+    "C05": "Also: every evaluation entry point reports cost = (budget the machine was created with) - (budget left) (shared with C19).",
     "C15": "Also: the parser's `I <n>` and the printer convert Data big integers through from/to_pallas_bigint, whose -1-n convention is checked on MIR in both directions. The grammar reads a Data constructor index with a rule that holds every u64, and a parsed name's unique always comes from the interner.",
 }
 for _pid, _t in ADDENDA.items():
